@@ -520,7 +520,12 @@ struct BigInt {
 
             case BigIntOperation::And: {
                 storage_[0U] &= number;
-                index_ = 0U;
+
+                while (index_ != 0U) {
+                    storage_[index_] = 0;
+                    --index_;
+                }
+
                 break;
             }
 
@@ -553,7 +558,14 @@ struct BigInt {
 
             case BigIntOperation::And: {
                 storage_[0U] &= Number_T(number);
-                index_ = 0U;
+
+                if QENTEM_CONST_EXPRESSION (!is_bigger_size) {
+                    while (index_ != 0U) {
+                        storage_[index_] = 0;
+                        --index_;
+                    }
+                }
+
                 break;
             }
 
@@ -566,6 +578,25 @@ struct BigInt {
         if QENTEM_CONST_EXPRESSION (is_bigger_size) {
             SizeT32 index = 1U;
             number >>= TypeWidth();
+
+            if QENTEM_CONST_EXPRESSION (Operation == BigIntOperation::And) {
+                // Only existing words can survive; words beyond the bits of 'number' are cleared.
+                SizeT32 top = 0U;
+
+                while (index <= index_) {
+                    storage_[index] &= Number_T(number);
+
+                    if (storage_[index] != Number_T(0)) {
+                        top = index;
+                    }
+
+                    number >>= TypeWidth();
+                    ++index;
+                }
+
+                index_ = top;
+                return;
+            }
 
             while (number != N_Number_T{0}) {
                 switch (Operation) {
